@@ -361,3 +361,38 @@ def shorthand_cases() -> list[tuple[str, dict[str, str], dict[str, Any]]]:
     """Every bracket-rooted / shorthand-index path form in every hole (run with shorthand_indexes on)."""
     data = dict(EXPR_DATA, **{"some thing": ["x", "y"], "a b": [[1, 2]]})
     return [(hole.replace("{E}", e), EXPR_TEMPLATES, data) for hole in TAG_HOLES for e in SHORTHAND_FORMS]
+
+
+# ---------------------------------------------------------------- errors raised inside partials and inherited templates
+
+ERROR_BODIES = {
+    "div0": "{{ 1 | divided_by: 0 }}", "brk": "{% break %}", "cont": "x{% continue %}", "missing": "{% include 'nosuch/partial' %}",
+    "rmissing": "{% render 'sub/none.liquid' %}", "notiter": "{% for i in 5 %}{% endfor %}", "syntax": "{% if %}", "lexerr": "{{ 'x }}",
+    "nofilter": "{{ x | nosuchfilter }}", "badext": "{% extends 'nosuch/base' %}", "typeerr": "{{ 'a' | plus: nosuch | slice: 'z' }}",
+    "argc": "{{ 1 | upcase: 1, 2 }}", "limit": "{% for i in (1..100000) %}{{ i }}{% endfor %}", "dupblock": "{% block b %}{% endblock %}{% block b %}{% endblock %}",
+    "multi": "line1\nline2\n  {{ 1 | modulo: 0 }}\n", "eof": "{{",
+}
+
+
+def decoration_templates() -> tuple[dict[str, str], list[str]]:
+    """(templates by name - names contain sub-directories -, entry names)."""
+    t: dict[str, str] = {"sub/base.liquid": "B[{% block b %}base{% endblock %}]", "sub/deep/base2.liquid":
+                         "{% extends 'sub/base.liquid' %}{% block b %}{{ block.super }}{% block c %}{% endblock %}{% endblock %}"}
+    entries = []
+    for k, body in ERROR_BODIES.items():
+        t[f"sub/e_{k}.liquid"] = body
+        t[f"sub/deep/b_{k}.liquid"] = "{% block b %}{% endblock %}\n" + body
+        forms = {
+            f"direct_{k}.liquid": body,
+            f"inc_{k}.liquid": "a\n{% include 'sub/e_" + k + ".liquid' %}",
+            f"ren_{k}.liquid": "a\n\n{% render 'sub/e_" + k + ".liquid' %}",
+            f"top/for_inc_{k}.liquid": "{% for q in (1..2) %}{% include 'sub/e_" + k + ".liquid' %}{% endfor %}",
+            f"top/child_{k}.liquid": "{% extends 'sub/base.liquid' %}{% block b %}\n{% include 'sub/e_" + k + ".liquid' %}{% endblock %}",
+            f"top/child2_{k}.liquid": "{% extends 'sub/deep/base2.liquid' %}{% block c %}" + body + "{% endblock %}",
+            f"top/childbase_{k}.liquid": "{% extends 'sub/deep/b_" + k + ".liquid' %}{% block b %}x{% endblock %}",
+            f"top/macro_{k}.liquid": "{% macro m %}{% render 'sub/e_" + k + ".liquid' %}{% endmacro %}\n{% call m %}",
+            f"top/capt_{k}.liquid": "{% capture c %}{% include 'sub/e_" + k + ".liquid' %}{% endcapture %}{{ c }}",
+        }
+        t.update(forms)
+        entries += list(forms)
+    return t, entries
